@@ -238,11 +238,15 @@ func builtinStringReplace(call FunctionCall) Value {
 			find = -1
 			global = true
 		}
-	} else {
-		search = regexp.MustCompile(regexp.QuoteMeta(searchValue.string()))
 	}
 
-	found := search.FindAllSubmatchIndex(target, find)
+	var found [][]int
+	if search != nil {
+		found = search.FindAllSubmatchIndex(target, find)
+	} else if index := bytes.Index(target, []byte(searchValue.string())); index >= 0 {
+		// A search value that is not a RegExp is looked for literally, first occurrence only (15.5.4.11).
+		found = [][]int{{index, index + len(searchValue.string())}}
+	}
 	if found == nil {
 		return stringValue(string(target)) // !match
 	}
